@@ -58,14 +58,14 @@ pub fn prop_cfg(prop: &str, thorough: bool) -> PropCfg {
         "C01" => PropCfg { groups: grp::STR, gaps: 1, ..base },
         "C02" => PropCfg { groups: grp::STR | grp::TREE, ..base },
         "C03" => PropCfg { groups: grp::STR | grp::FORMS | grp::WITH, padded: true, gaps: 1, ..base },
-        "C04" => PropCfg { groups: grp::STR | grp::EXTRA_ENTRY | grp::TREE, gaps: 1, ..base },
+        "C04" => PropCfg { groups: grp::STR | grp::EXTRA_ENTRY | grp::TREE | grp::FORMS, padded: true, gaps: 1, ..base },
         "C05" => PropCfg { families: &["stack", "slice", "repo", "random"], groups: grp::STR | grp::WITH, sentences: 40 * k, mutations: 80 * k, ..base },
         "C06" => PropCfg { families: &["slice", "stack"], groups: grp::STR | grp::WITH, sentences: 30 * k, mutations: 40 * k, ..base },
         "C07" => PropCfg { families: &["kinds"], groups: grp::STR | grp::TREE, sentences: 30 * k, mutations: 60 * k, small_cap: 800 * k, gaps: 4 * k, ..base },
         "C08" => PropCfg { groups: grp::STR | grp::TREE | grp::FORMS, padded: true, cuts: 6 * k, sentences: 16 * k, mutations: 24 * k, small_cap: 150 * k, ..base },
         "C09" => PropCfg { groups: grp::ALL, padded: true, sentences: 16 * k, mutations: 40 * k, small_cap: 200 * k, ..base },
         "C10" => PropCfg { groups: grp::STR | grp::WITH | grp::VALUE | grp::FORMS, padded: true, ..base },
-        "C11" => PropCfg { groups: grp::STR | grp::WITH, sentences: 12 * k, mutations: 16 * k, small_cap: 100 * k, ..base },
+        "C11" => PropCfg { groups: grp::STR | grp::WITH | grp::FORMS, padded: true, sentences: 12 * k, mutations: 16 * k, small_cap: 100 * k, ..base },
         "C15" => PropCfg { groups: grp::STR | grp::TREE | grp::TRAVERSAL, ..base },
         "C16" => PropCfg { groups: grp::STR | grp::TREE | grp::GETTERS | grp::WALK, ..base },
         "C17" => PropCfg { families: &["arity", "unicode", "core", "repo", "stack", "getter", "random"], groups: grp::STR | grp::WALK, ..base },
